@@ -565,10 +565,37 @@ def bound_arg(b, form):
     if b is None or isinstance(b, int): return b
     return tuple(b) if form == "tuple" else list(b)
 
-def run_where(case):
-    seq, f = case["seq"], case["f"]
-    fed = Fed(seq)
+def where_check(fed, out, seq, f, kw, what):
+    """the bounds model for ONE environment: whatever the filter object has seen before"""
     n = fed.n
+    keep_rows = [i for i, r in enumerate(seq["rows"]) if f["n_actions"] is None or in_bounds(len(r["a"]), f["n_actions"])]
+    if n == 0:
+        fed.expect(out, [], what + "Where on an empty environment", **kw)
+        return
+    if not in_bounds(n, f["n_interactions"]):
+        fed.expect(out, [], what + "Where: interaction count out of bounds, the environment must be dropped", **kw)
+        return
+    fits = [in_bounds(c, f["n_features"]) for r in seq["rows"] for c in feature_counts(seq, r)]
+    if all(fits):
+        fed.expect(out, keep_rows, what + "Where: environment within bounds, interactions selected by action count", **kw)
+    elif not any(fits):
+        fed.expect(out, [], what + "Where: feature count out of bounds, the environment must be dropped", **kw)
+    else:   # ambiguous feature count: all or nothing
+        if len(out) != 0:
+            fed.expect(out, keep_rows, what + "Where: environment passed through, interactions selected by action count", **kw)
+
+def where_seqs(case):
+    """the environments one Where object is applied to: the generated one and (optionally) a window of its rows of another length"""
+    seq = case["seq"]
+    out = [seq]
+    if case.get("other") is not None:
+        start, length = case["other"]
+        rows = seq["rows"]
+        out.append(dict(seq, rows=[rows[(start + i) % len(rows)] for i in range(length)] if rows else [], tag=True, tag0=100))
+    return out
+
+def run_where(case):
+    f = case["f"]
     kw, want_params = {}, {}
     for name in ("n_interactions", "n_actions", "n_features"):
         if f[name] is not None:
@@ -576,23 +603,22 @@ def run_where(case):
             want_params["where_" + name] = kw[name]
     filt = F.Where(**kw)
     require(filt.params == want_params, "Where.params", params=filt.params)
-    out = list(filt.filter(fed.feed()))
-    fed.check_untouched("Where")
-    keep_rows = [i for i, r in enumerate(seq["rows"]) if f["n_actions"] is None or in_bounds(len(r["a"]), f["n_actions"])]
-    if n == 0:
-        fed.expect(out, [], "Where on an empty environment", **kw)
-        return
-    if not in_bounds(n, f["n_interactions"]):
-        fed.expect(out, [], "Where: interaction count out of bounds, the environment must be dropped", **kw)
-        return
+    envs = where_seqs(case)
+    feds = [Fed(s) for s in envs]
+    order = [k % len(envs) for k in case.get("order", [0])]
+    for t, k in enumerate(order):     # ONE filter object, applied in sequence to (different) environments
+        out = list(filt.filter(feds[k].feed()))
+        feds[k].check_untouched("Where")
+        what = "" if len(order) == 1 else f"[same Where object, call {t} of {order} on environment {k} with {feds[k].n} interactions] "
+        where_check(feds[k], out, envs[k], f, kw, what)
+    require(filt.params == want_params, "Where.params after filtering", params=filt.params)
+
+def where_outcome(seq, f):
+    n = len(seq["rows"])
+    if n == 0: return "empty"
+    if not in_bounds(n, f["n_interactions"]): return "dropped"
     fits = [in_bounds(c, f["n_features"]) for r in seq["rows"] for c in feature_counts(seq, r)]
-    if all(fits):
-        fed.expect(out, keep_rows, "Where: environment within bounds, interactions selected by action count", **kw)
-    elif not any(fits):
-        fed.expect(out, [], "Where: feature count out of bounds, the environment must be dropped", **kw)
-    else:   # ambiguous feature count: all or nothing
-        if len(out) != 0:
-            fed.expect(out, keep_rows, "Where: environment passed through, interactions selected by action count", **kw)
+    return "kept" if all(fits) else "dropped" if not any(fits) else "ambiguous"
 
 @st.composite
 def bounds(draw, pivots):
@@ -617,10 +643,25 @@ def where_cases(draw, tier):
     if "f" in which:
         fc = sorted({c for r in seq["rows"] for c in feature_counts(seq, r)} or {1})
         f["n_features"] = draw(bounds(fc))
-    return {"seq": seq, "f": f}
+    case = {"seq": seq, "f": f}
+    mode = draw(st.integers(0, 4))     # 1,2,3: the same Where object also meets a second environment of another length; 4: read twice
+    if mode in (1, 2, 3) and n > 0:
+        top = 12 if tier == "quick" else 40
+        opposite = [m for m in range(1, top + 1) if in_bounds(m, f["n_interactions"]) != in_bounds(n, f["n_interactions"])]
+        if opposite and mode != 3:     # by construction on the other side of the interaction bound
+            near = sorted(opposite, key=lambda m: abs(m - n))[:4]
+            length = near[draw(st.integers(0, len(near) - 1))]
+        else:
+            length = draw(st.one_of(around(n), st.integers(0, top)))
+        case["other"] = [draw(st.integers(0, n - 1)), length]
+        case["order"] = [[1, 0], [0, 1], [1, 0, 1], [0, 1, 0], [1, 1, 0], [0, 0, 1]][draw(st.integers(0, 5))]
+    elif mode == 4:
+        case["order"] = [0, 0]
+    return case
 
 def where_nontrivial(case):
     seq, f = case["seq"], case["f"]
+    if len(where_seqs(case)) > 1 and len({where_outcome(s, f) for s in where_seqs(case)} & {"kept", "dropped"}) == 2: return True
     n = len(seq["rows"])
     b = f["n_interactions"]
     two_sided = isinstance(b, list) and b[0] is not None and b[1] is not None
@@ -630,6 +671,14 @@ def where_classes(case):
     seq, f = case["seq"], case["f"]
     n = len(seq["rows"])
     out = seq_classes(seq)
+    envs = where_seqs(case)
+    if len(envs) > 1:
+        oc = [where_outcome(s, f) for s in envs]
+        first = case["order"][0] % len(envs)
+        out.append("same-object-two-environments=" + ("different-outcomes" if set(oc) >= {"kept", "dropped"} else "same-outcome"))
+        if set(oc) >= {"kept", "dropped"}: out.append(f"same-object-first-read={oc[first]}")
+    else:
+        out.append("same-object-two-environments=no" + ("(read twice)" if len(case.get("order", [0])) > 1 else ""))
     def shape(b): return "none" if b is None else "exact" if isinstance(b, int) else "min" if b[1] is None else "max" if b[0] is None else "both"
     out += [f"n_interactions={shape(f['n_interactions'])}", f"n_actions={shape(f['n_actions'])}", f"n_features={shape(f['n_features'])}"]
     b = f["n_interactions"]
@@ -915,7 +964,7 @@ def run_envs(case):
 
 @st.composite
 def envs_cases(draw, tier):
-    op = draw(st.sampled_from(["cache", "shuffle", "shuffle", "cache", "take", "slice", "riffle", "sort", "where", "reservoir", "chunk", "params", "batch_unbatch"]))
+    op = draw(st.sampled_from(["cache", "shuffle", "shuffle", "cache", "take", "slice", "riffle", "sort", "where", "where", "reservoir", "chunk", "params", "batch_unbatch"]))
     if op == "sort":
         seq = draw(seqs(tier, ctx_kinds=("list", "tuple", "sparse")))
         if seq["ctx"] == "sparse": keys = draw(st.lists(st.sampled_from(seq["keys"]), min_size=1, max_size=2, unique=True))
@@ -936,7 +985,14 @@ def envs_cases(draw, tier):
     elif op == "take": f.update(count=draw(around(n)), strict=draw(st.booleans()))
     elif op == "slice": f.update(start=draw(st.one_of(st.none(), st.integers(0, 3))), stop=draw(st.one_of(st.none(), around(n))), step=draw(st.sampled_from([1, 1, 2, 3])))
     elif op == "riffle": f.update(spacing=draw(st.integers(1, 4)), seed=draw(st.integers(0, 30)))
-    elif op == "where": f.update(n_interactions=draw(bounds([n] + [m[1] for m in members])))
+    elif op == "where":
+        sizes = sorted({x for x in [n] + ([m[1] for m in members] if n else []) if x > 0})
+        pick = draw(st.integers(0, 5))
+        if len(sizes) >= 2 and pick < 4:    # members on both sides of the bound: the shared Where object must decide per member
+            lo, hi = sizes[0], sizes[-1]
+            f.update(n_interactions=[[hi, None], [None, lo], [lo + 1, hi], lo][pick])
+        else:
+            f.update(n_interactions=draw(bounds([n] + [m[1] for m in members])))
     elif op == "reservoir": f.update(count=draw(around(n)), strict=draw(st.booleans()), seeds=draw(st.lists(st.integers(0, 12), min_size=1, max_size=3, unique=True)), as_list=draw(st.booleans()))
     elif op == "chunk": f.update(cache=draw(st.integers(0, 3)) > 0)
     elif op == "batch_unbatch": f.update(size=draw(st.one_of(st.sampled_from([1, 2, 3]), around(n, lo=1))))
@@ -951,13 +1007,18 @@ def envs_nontrivial(case):
 def envs_classes(case):
     f = case["f"]
     ms = member_seqs(case)
+    if f["op"] == "where":
+        oc = {in_bounds(len(m["rows"]), f["n_interactions"]) for m in ms if m["rows"]}
+        extra = ["where-members=" + ("different-outcomes" if len(oc) == 2 else "same-outcome")]
+    else:
+        extra = []
     out = [f"op={f['op']}"] + seq_classes(case["seq"])[:3]
     out.append(f"members={len(ms)}")
     out.append("member-lengths=" + ("n/a" if len(ms) < 2 else "equal" if len({len(m["rows"]) for m in ms}) == 1 else "different"))
     reads = case.get("reads", [])
     out.append("read-order=" + ("default" if not reads else "generated-with-repeats" if len(set(reads)) < len(reads) else "generated"))
     if f["op"] == "shuffle": out.append("shuffle-how=" + f["how"])
-    return out
+    return out + extra
 
 # =============================================================================================== the generic pipes filters
 def run_pipes(case):
@@ -1073,7 +1134,8 @@ SUBCHECKS = [
              "seed-sensitive; non-trivial = N>=2 and count>=N-1 / step>1 / empty or overrunning slice / a real sample"),
     Sub(name="where", run=run_where, strategy=where_cases, nontrivial=where_nontrivial, classes=where_classes, sample_view=sample_view,
         quick=2500, thorough=160000, quick_shards=1,
-        what="Where with exact / min / max / two-sided bounds on interaction, feature and action counts vs the bounds model; "
+        what="ONE Where object applied in sequence to one or two environments of different length (both read orders, outcomes differing by construction) "
+             "with exact / min / max / two-sided bounds on interaction, feature and action counts vs the bounds model; "
              "non-trivial = N>=2 and a two-sided interaction bound or an action/feature bound"),
     Sub(name="identity", run=run_identity, strategy=identity_cases, nontrivial=identity_nontrivial, classes=identity_classes, sample_view=sample_view,
         quick=2500, thorough=120000, quick_shards=1,
